@@ -7,12 +7,12 @@ Open Scope Z_scope.
 
 Lemma outcome_eqb_eq a b : outcome_eqb a b = true -> a = b.
 Proof.
-  destruct a, b; cbn; intros H; try discriminate; auto.
-  apply Z.eqb_eq in H. now subst.
+  destruct a, b; cbn; intros H; try discriminate; auto;
+  apply Z.eqb_eq in H; now subst.
 Qed.
 
 Lemma outcome_eqb_refl a : outcome_eqb a a = true.
-Proof. destruct a; cbn; auto. apply Z.eqb_refl. Qed.
+Proof. destruct a; cbn; auto; apply Z.eqb_refl. Qed.
 
 Lemma Rel_ext s t t' f b :
   Rel s t f b ->
@@ -110,6 +110,10 @@ Proof.
           intros g'' N. rewrite memz_remz. apply Z.eqb_neq in N. now rewrite N. }
         eapply Rel_ext; [exact HR2|..]; reflexivity.
       * intros L. apply L in Ek. unfold amem in Ek. rewrite Eg in Ek. discriminate.
+    + exfalso. unfold do_start in Hd.
+      destruct (g <? 0); [discriminate|]. destruct (negb (mstate s g =? 0)); [discriminate|].
+      destruct (memz g (killq s)); [|discriminate].
+      destruct (alookup g (gens s)) as [[?|]|]; discriminate.
     + exfalso. unfold do_start in Hd.
       destruct (g <? 0); [discriminate|]. destruct (negb (mstate s g =? 0)); [discriminate|].
       destruct (memz g (killq s)); [|discriminate].
